@@ -325,9 +325,24 @@ def check_frame_typing(repo, chk):
                 if isinstance(c_, _ast.Call) and norm_text(c_.func).split(".")[-1] == "cal_single_boost":
                     users.append((f_, c_))
     ha = repo.fn(CAL + "cal_helicity_angle")
+    # only a use on the way to the helicity angles counts: cal_helicity_angle and whatever it calls (by name, in its
+    # own module).  A caller elsewhere (a plotting helper, a cross-check utility) is reported as INFO only
+    closure, todo = {ha.key}, [ha]
+    while todo:
+        g_ = todo.pop()
+        for c_ in _ast.walk(g_.node):
+            if isinstance(c_, _ast.Call) and isinstance(c_.func, _ast.Name) and c_.func.id in g_.mod.funcs and c_.func.id != "cal_single_boost":
+                h_ = g_.mod.funcs[c_.func.id]
+                if h_.key not in closure:
+                    closure.add(h_.key)
+                    todo.append(h_)
+    for f_, c_ in users:
+        if f_.key not in closure:
+            chk.info("T-frame: %s calls cal_single_boost outside the helicity-angle computation (not judged)" % f_.key)
+    users = [(f_, c_) for f_, c_ in users if f_.key in closure]
     chained = [c_ for c_ in _ast.walk(ha.node) if isinstance(c_, _ast.Call) and norm_text(c_.func).split(".")[-1] == "cal_chain_boost"]
     ok_use = bool(chained) and not users
-    chk.oblige("T-frame", "cal_helicity_angle takes its rest-frame momenta from cal_chain_boost (%d call); cal_single_boost has %d callers" % (len(chained), len(users)), ok_use)
+    chk.oblige("T-frame", "cal_helicity_angle takes its rest-frame momenta from cal_chain_boost (%d call); cal_single_boost is used %d times on the way to the helicity angles" % (len(chained), len(users)), ok_use)
     for f_, c_ in users[:2]:
         chk.violation("T-frame", f_.key, "single-boost-used", "%s calls cal_single_boost: momenta boosted straight from the input frame differ from the chained rest frames by a Wigner rotation whenever the parent moves, so helicity angles of J >= 1 resonances change with the observer's frame" % f_.key, file=f_.mod.rel, line=c_.lineno)
     if not chained and not users:
